@@ -77,3 +77,91 @@ def hilbert_ref(p, d):
         else:
             x, y = 2 * s - 1 - y, s - 1 - x
     return [x, y]
+
+
+# --------------------------------------------------------------------------
+# running the implementation side in a child process with a deadline: a kernel
+# that loops forever (numba nopython code cannot be interrupted from Python) is
+# reported instead of hanging the check
+# --------------------------------------------------------------------------
+class ImplHang(Exception):
+    pass
+
+
+class ImplCrash(Exception):
+    pass
+
+
+def _worker(conn, table):
+    import traceback
+    while True:
+        try:
+            msg = conn.recv()
+        except EOFError:
+            return
+        if msg is None:
+            return
+        name, args = msg
+        try:
+            conn.send(('ok', table[name](*args)))
+        except Exception as e:   # the callee reports expected exceptions itself
+            conn.send(('exc', f'{type(e).__name__}: {e}\n{traceback.format_exc()[-1500:]}'))
+
+
+class ImplRunner:
+    """table: name -> function, executed in a forked child; call(name, args, timeout)"""
+
+    def __init__(self, table):
+        import multiprocessing as mp
+        self.ctx = mp.get_context('fork')
+        self.table = table
+        self.proc = None
+        self.conn = None
+        self.hangs = 0
+
+    def _start(self):
+        parent, child = self.ctx.Pipe()
+        self.proc = self.ctx.Process(target=_worker, args=(child, self.table), daemon=True)
+        self.proc.start()
+        child.close()
+        self.conn = parent
+
+    def call(self, name, args, timeout):
+        if self.proc is None or not self.proc.is_alive():
+            self._start()
+        self.conn.send((name, args))
+        try:
+            ready = self.conn.poll(timeout)
+        except (EOFError, OSError):
+            ready = True
+        if not ready:
+            self.hangs += 1
+            self.kill()
+            raise ImplHang(f'no answer within {timeout:.0f} s')
+        try:
+            kind, val = self.conn.recv()
+        except (EOFError, OSError):
+            self.kill()
+            raise ImplCrash('the implementation process died')
+        if kind == 'exc':
+            raise ImplCrash(val)
+        return val
+
+    def kill(self):
+        if self.proc is not None:
+            try:
+                self.proc.kill()
+                self.proc.join(5)
+            except Exception:
+                pass
+        self.proc = None
+        self.conn = None
+
+    def close(self):
+        if self.proc is not None and self.proc.is_alive():
+            try:
+                self.conn.send(None)
+                self.proc.join(2)
+            except Exception:
+                pass
+        self.kill()
